@@ -37,7 +37,18 @@ namespace booster {
 	struct shared_mutex::data { pthread_rwlock_t m; };
 	shared_mutex::shared_mutex() : d(new data)
 	{
+		#ifdef __GLIBC__
+		// The default kind lets new readers pass a waiting writer: with readers arriving all
+		// the time unique_lock() never returns. shared_lock() of this class is not recursive,
+		// which is what the writer preferring kind asks for.
+		pthread_rwlockattr_t attr;
+		pthread_rwlockattr_init(&attr);
+		pthread_rwlockattr_setkind_np(&attr,PTHREAD_RWLOCK_PREFER_WRITER_NONRECURSIVE_NP);
+		pthread_rwlock_init(&d->m,&attr);
+		pthread_rwlockattr_destroy(&attr);
+		#else
 		pthread_rwlock_init(&d->m,0);
+		#endif
 	}
 	shared_mutex::~shared_mutex()
 	{
